@@ -21,6 +21,7 @@ int main()
     P("sizeof_chunk_base", sizeof(chunk_base));
     P("sizeof_chunk", sizeof(chunk));
     P("alignof_chunk", alignof(chunk));
+    P("alignof_chunk_base", alignof(chunk_base));
     P("chunk_memory_offset", chunk_memory_offset);
     P("chunk_max_nodes", chunk_max_nodes);
     P("implementation_offset", memory_block_stack::implementation_offset());
